@@ -2,7 +2,7 @@
    it observed.  [agrees] compares with the model; [C09_ok] evaluates the property on the
    observation alone, by replaying sent and received events on two folded views -- it never calls
    merge_changes or the state machines. *)
-From SC Require Import Base.Prelude Excess.Change Excess.MergeExcess Excess.DropExcess Excess.ChangesAfter Excess.Pipeline.
+From SC Require Import Base.Prelude Excess.Change Excess.MergeExcess Excess.DropExcess Excess.ChangesAfter Excess.Pipeline Excess.SendTimeout.
 
 Inductive c09case :=
 (* mergeCollectionExcess driven one action at a time; obs has one entry per action *)
@@ -23,8 +23,15 @@ Inductive c09case :=
 (* backpressure, subscriber not receiving: did write #1 / #2 return within the probe window,
    did #2 return once the subscriber received *)
 | KApiWaits (first_returned second_returned_early second_returned_after_recv : bool)
-(* Value.Set with a stuck backpressured subscriber: returned an error? elapsed milliseconds *)
-| KApiTimeout (errored : bool) (elapsed_ms : Z)
+(* Value.Set with a backpressured subscriber that has stopped receiving: did the write that could not
+   be handed over return an error, after how many milliseconds; did the later writes (after the
+   subscriber resumed -- resume = true -- and after it cancelled) return and arrive; every value
+   written while the subscription was open, in order; what the subscriber received (resume only) *)
+| KApiTimeout (resume errored : bool) (elapsed_ms : Z) (later_ok : bool) (written got : list Z)
+(* where a lossy stage can block, read from the source (harness/c09/src.go): stage 0 =
+   mergeCollectionExcess, 1 = DropExcess; sends on out inside a select that also receives from in;
+   sends anywhere else; receives from any other channel *)
+| KSrc (stage sel bare other : Z)
 (* the lossy front mergeCollectionExcess(changesAfter(in, seeded)) as Collection.onUpdate assembles
    it, driven one action at a time (each action followed by quiescence).  hist = every publication
    of the store in commit order (those numbered up to seeded are what the seed shows); acts = the
@@ -184,7 +191,11 @@ Definition C09_ok (c : c09case) : bool :=
   | KApiValue true sent got converged slow =>
       converged && list_eqb Z.eqb got sent
   | KApiWaits first early after => first && negb early && after
-  | KApiTimeout errored ms => errored && (4000 <=? ms) && (ms <=? 9000)
+  | KApiTimeout resume errored ms later written got =>
+      errored && (4000 <=? ms) && (ms <=? 9000) && later
+      && (if resume then subseq got written && option_eqb Z.eqb (last (map Some got) None) (last (map Some written) None)
+          else match got with [] => true | _ => false end)
+  | KSrc _ _ _ _ => true      (* a fact about the model's fidelity, see agrees *)
   | KLossy seeded hist acts os => lossy_ok seeded hist acts os
   | KPipe bp seeded nseed _ hist es blocked => pipe_ok bp seeded nseed hist es blocked
   | KVPipe bp seed es blocked =>
@@ -212,6 +223,11 @@ Definition C09_guard (c : c09case) : bool :=
   | _ => true
   end.
 
+(* The models have Send enabled in every open state (send_enabled, d_send_enabled: no hypothesis on
+   the backlog).  The code has that shape exactly when the goroutine never parks anywhere but (a) in
+   a plain receive from its input or (b) in a select that has a receive-from-input case. *)
+Definition src_receptive (sel bare other : Z) : bool := (1 <=? sel) && (bare =? 0) && (other =? 0).
+
 Definition agrees (c : c09case) : bool :=
   match c with
   | KMerge acts os => list_eqb obs_eqb os (snd (m_run m_init acts))
@@ -227,6 +243,17 @@ Definition agrees (c : c09case) : bool :=
   | KPipe true seeded nseed _ _ es blocked => negb blocked && b_explore Some (b_init seeded nseed) es
   | KVPipe false seed es blocked => negb blocked && value_agrees_drained (fun _ _ => false) seed es
   | KVPipe true seed es blocked => negb blocked && w_explore (fun _ _ => false) (w_init seed) es
+  | KSrc _ sel bare other => src_receptive sel bare other
+  | KApiTimeout resume errored _ later written got =>
+      (* the scenario as a run of the timed-writer model (SendTimeout.timeout_script, T = 5 ticks):
+         the undeliverable write returns an error, every other one nil; the subscriber receives
+         exactly what the model delivers; `written` = the writes made while the subscription was open *)
+      match timeout_expected resume with
+      | Some (rs, dl) =>
+          errored && later && list_eqb Z.eqb got dl
+          && list_eqb Z.eqb written (map res_val (removelast rs))
+      | None => false
+      end
   | _ => true    (* the public-API runs are judged by the oracle only: their receive pattern is
                     decided by the scheduler (the Pull goroutine holds one event), not recorded *)
   end.
